@@ -223,6 +223,27 @@ fn c05_ok(leaf: &mut Leaf, lines: &[Line]) {
             bw.push(serde_json::Value::Object(o));
         }
     }
+    // ... and inputs on which a sale claims an ENTIRE later purchase across a split whose ratio has a non-terminating
+    // reciprocal, the purchase being 0.02 or 2 shares (x/3*3 rounds a hair above x for such x in 28-digit arithmetic)
+    let mut extra = 0;
+    for b in lines.iter().filter(|l| l.kind == Kind::Buy) {
+        for sl in lines.iter().filter(|l| l.kind == Kind::Sell && l.ticker == b.ticker && l.day < b.day && b.day - l.day <= 30) {
+            let rho = spec::ratio_between(lines, &b.ticker, sl.day, b.day);
+            if extra >= 2 || vx::show(rho) == "1/1" {
+                continue;
+            }
+            for v in [Decimal::new(2, 2), Decimal::from(2)] {
+                if let Some(w) = vx::witness_with(&[vx::eq(b.q, v), vx::ge(sl.q * rho, b.q)]) {
+                    let mut o = serde_json::Map::new();
+                    for (k, x) in w {
+                        o.insert(k, serde_json::Value::String(x));
+                    }
+                    bw.push(serde_json::Value::Object(o));
+                    extra += 1;
+                }
+            }
+        }
+    }
     if !bw.is_empty() {
         leaf.extra["boundary_witnesses"] = serde_json::Value::Array(bw);
     }
